@@ -40,6 +40,7 @@ UNIT = {
         (r'c:(basic_string<char>|string|std::string)/0', 'vstr_new'),
         (r'c:(std::)?vector<(unsigned char|uint8_t)>\(.*size_type.*\)', ('vbytes_new', 'v')),
         (r'c:(std::)?vector<(unsigned char|uint8_t)>/2', ('vbytes_new', 'v')),
+        (r'c:(std::)?vector<(unsigned char|uint8_t)>\(\)', 'vbytes_empty'), (r'c:(std::)?vector<(unsigned char|uint8_t)>/0', 'vbytes_empty'), (r'c:ValueType\(\)', 'vbytes_empty'), (r'c:ValueType/0', 'vbytes_empty'),
     ],
     'struct_extra': {'TaskInterface': '  void *impl;\n  void *ctx;\n', 'llb_task_interface_t': '  void *impl;\n  void *ctx;\n'},
     'prelude': '#include "models/base.h"\nstruct llb_data_t;\n#include "models/capi.h"\n',
